@@ -20,11 +20,14 @@ def rename(p, k):
     """prefix the function names of program p with p<k>_ (programs are batched into one executable)"""
     p = copy.deepcopy(p)
     names = {f["name"] for f in p["fns"]}
+    gnames = {g["n"] for g in p.get("globs", [])}
 
     def walk(x):
         if isinstance(x, dict):
             if x.get("e") in ("call", "fnref") and x["f"] in names:
                 x["f"] = "p%d_%s" % (k, x["f"])
+            if x.get("e") == "var" and x["n"] in gnames:
+                x["n"] = "p%d_%s" % (k, x["n"])
             for v in x.values():
                 walk(v)
         elif isinstance(x, list):
@@ -33,6 +36,8 @@ def rename(p, k):
     walk(p)
     for f in p["fns"]:
         f["name"] = "p%d_%s" % (k, f["name"])
+    for g in p.get("globs", []):
+        g["n"] = "p%d_%s" % (k, g["n"])
     return p
 
 
@@ -87,7 +92,8 @@ def run_programs(chk, progs, tag):
     texts = {}
     for k, (p, f) in enumerate(progs):
         q = rename(p, k)
-        texts[k] = "\n".join(R().fn(fn) for fn in q["fns"] if not fn.get("local"))
+        texts[k] = "\n".join([R().glob(g) for g in q.get("globs", [])] +
+                             [R().fn(fn) for fn in q["fns"] if not fn.get("local")])
 
     def batch_src(ks):
         calls = "\n".join("    { s_ := p%d_main(); putchar(35); emit(^s_, 4); nl(); }" % k for k in ks)
@@ -160,11 +166,11 @@ def run_programs(chk, progs, tag):
             ("compiler-failed" if not o["acc"] else ("fault" if (o["end"] != want.get("end")) else
                                                      ("status" if o["out"] == want.get("out") else "output")))
         chk.violation({"kind": kind, "end": o["end"][:60] if kind != "output" else ""},
-                      {"source": capygen.PRELUDE_TYPES + R().program({"fns": progs[k][0]["fns"]}),
+                      {"source": R().program(progs[k][0]),
                        "observed": o, "prescribed": want,
                        "how": "every print is one line of little-endian hex bytes; status = exit status"})
     for k in (0, len(progs) // 2, len(progs) - 1):
-        chk.sample({"source": R().program({"fns": progs[k][0]["fns"]})[:1500], "observed": obs[k]})
+        chk.sample({"source": R().program(progs[k][0])[:1500], "observed": obs[k]})
     import collections
     hist = collections.Counter()
 
